@@ -121,6 +121,7 @@ type verifStateOpts struct {
 	DenyFPs          []string
 	PublicKeysFile   bool
 	PublicKeysList   []string // fixture names to list in the public keys file (default: the CA keys in use)
+	PublicKeysRaw    string   // raw text appended to the public keys file (comments, blank lines, retired keys)
 	DisableNormalize bool
 	VIP              bool   // symantec VIP enabled (pointed at a fake by InstallFakeVIP)
 	OktaDomain       string // okta password + 2FA backend (reached through verifNet)
@@ -304,6 +305,7 @@ func verifNewEnv(o verifStateOpts) (*verifEnv, error) {
 				content = append(content, []byte(verifSSHAuthorizedKey(verifSigner(fx).Public()))...)
 			}
 		}
+		content = append(content, []byte(o.PublicKeysRaw)...)
 		os.WriteFile(filepath.Join(dir, "kmkeys.pub"), content, 0644)
 		fmt.Fprintf(&y, "    keymaster_public_keys_filename: %q\n", filepath.Join(dir, "kmkeys.pub"))
 	}
@@ -379,6 +381,7 @@ func (e *verifEnv) UpsertSigned(user string, dataType int, expiration int64, dat
 func (e *verifEnv) GetSigned(user string, dataType int) (bool, string, error) {
 	return e.State.GetSigned(user, dataType)
 }
+
 // GetSignedFrom reads a signed record through the daemon's own reader, from the
 // primary store or (forced, the daemon's own switch) from the offline cache.
 func (e *verifEnv) GetSignedFrom(user string, dataType int, cache bool) (bool, string, error) {
@@ -472,6 +475,34 @@ func (e *verifEnv) TOTPLimiter(user string) (lockedFor time.Duration, failCount 
 	return time.Until(v.lockoutExpirationTime), int(v.failCount), true
 }
 
+// HoldTOTPLimiter takes the limiter's own mutex for d: requests arriving meanwhile queue on it (an injected delay at
+// an existing suspension point) and are let through together.
+func (e *verifEnv) HoldTOTPLimiter(d time.Duration, held chan struct{}) {
+	e.State.totpLocalTateLimitMutex.Lock()
+	close(held)
+	time.Sleep(d)
+	e.State.totpLocalTateLimitMutex.Unlock()
+}
+
+// ContendTOTPLimiter: n goroutines take and release the limiter's mutex in a loop until stop is closed (other users'
+// submissions competing for the same lock).
+func (e *verifEnv) ContendTOTPLimiter(n int, stop chan struct{}) {
+	for i := 0; i < n; i++ {
+		go func() {
+			for {
+				select {
+				case <-stop:
+					return
+				default:
+				}
+				e.State.totpLocalTateLimitMutex.Lock()
+				_ = e.State.totpLocalRateLimit["someone-else"]
+				e.State.totpLocalTateLimitMutex.Unlock()
+			}
+		}()
+	}
+}
+
 // ShiftTOTPLimiter makes the limiter state of user look d older ("d has passed").
 func (e *verifEnv) ShiftTOTPLimiter(user string, d time.Duration) {
 	e.State.totpLocalTateLimitMutex.Lock()
@@ -534,6 +565,15 @@ func (e *verifEnv) SetOutage(g *verifOutage, on bool) {
 		g.Open()
 		e.State.remoteDBQueryTimeout = 20 * time.Second
 	}
+}
+
+// GitDBGroups: what the GitDB user-information source currently says (nil source -> nil).
+func (e *verifEnv) GitDBGroups(user string) []string {
+	if e.State.gitDB == nil {
+		return nil
+	}
+	g, _ := e.State.gitDB.GetUserGroups(user)
+	return g
 }
 
 // ---- profile round trips (C15) ------------------------------------------------
